@@ -384,6 +384,21 @@ def lookup():
         eval_cells=[D1, E1, F1, S + 'B2'])
 
 
+def wholerow():
+    """A whole-row reference: the row has 16 384 members, whichever of them
+    are stored when the model is compiled (D1 is not, until it is set)."""
+    A1, B1, D1, A2, B2 = (S + x for x in ('A1', 'B1', 'D1', 'A2', 'B2'))
+    return ModelSpec(
+        'wholerow',
+        {A1: 2, B1: 3, A2: '=SUM(1:1)', B2: '=A2*2'},
+        [B1, D1], [0, 5],
+        {A2: lambda g: g(A1) + g(B1) + (g(D1) or 0),
+         B2: lambda g: g(A2) * 2},
+        eval_cells=[A2, B2])
+
+
+# (wholerow is expensive - 16 384 cells a model: its own, shallower, plan)
+COSTLY = [wholerow]
 ALL = [chain, diamond, sumrange, formularange, crosssheet, textmodel, named,
        branch, lookup, errrange, typed, guarded, named_extracted, othersheet,
        logic]
@@ -391,7 +406,7 @@ ALL_C05 = ALL + [twodim, longrange, criteria, overflow, raising]
 
 
 def by_name(name):
-    for f in ALL_C05:
+    for f in ALL_C05 + COSTLY:
         spec = f()
         if spec.name == name:
             return spec
